@@ -163,6 +163,54 @@ def signal_tables():
     return shut, timeout, jc, (n_group, n_any)
 
 
+def xml_filter_tables():
+    """junit.rs `xml_string` + quick-junit `XmlString::new`: the characters removed from every text handed to the serializer,
+    and how many of the `TestcaseOrRerun` setter arms pass their text through `xml_string`."""
+    import glob
+    src = strip_comments(read("nextest-runner/src/reporter/aggregator/junit.rs"))
+    m = re.search(r"fn xml_string\(data: impl Into<XmlString>\) -> XmlString \{(.*?)\n\}", src, re.S)
+    if not m: raise RuntimeError("junit.rs: xml_string not found")
+    body = re.sub(r"\s+", " ", m.group(1))
+    mm = re.fullmatch(r" let data = data\.into\(\); if data\.as_str\(\)\.contains\(\[(.*?)\]\) \{ XmlString::new\(data\.as_str\(\)\.replace\(\[(.*?)\], \"\"\)\) \} else \{ data \}", body)
+    if not mm: raise RuntimeError(f"junit.rs: xml_string has an unexpected shape: {body}")
+    def chars(t):
+        cs = re.findall(r"'\\u\{([0-9a-fA-F]+)\}'", t)
+        if len(cs) != len([x for x in t.split(",") if x.strip()]): raise RuntimeError(f"xml_string: unrecognised character list {t}")
+        return [int(c, 16) for c in cs]
+    tested, removed = chars(mm.group(1)), chars(mm.group(2))
+    m = re.search(r"impl TestcaseOrRerun<'_> \{(.*?)\n\}", src, re.S)
+    if not m: raise RuntimeError("junit.rs: impl TestcaseOrRerun not found")
+    arms = re.findall(r"(?:testcase(?:\.status)?|rerun)\.set_(?:message|description|system_out|system_err)\((.*?)\);", m.group(1))
+    n_wrapped = len([a for a in arms if re.fullmatch(r"xml_string\(\w+\)", a.strip())])
+    # texts reach quick-junit's setters only through TestcaseOrRerun
+    outside = src.replace(m.group(0), "")
+    flat = re.sub(r"\s+", " ", outside)
+    direct_recv = [r for r in re.findall(r"(\w+)\s*\.set_(?:message|description|system_out|system_err)\(", flat)
+                   if not re.search(r"\b" + r + r": (?:&mut )?TestcaseOrRerun<", flat)]
+    lock = read("Cargo.lock")
+    v = re.search(r'name = "quick-junit"\nversion = "([^"]+)"', lock)
+    if not v: raise RuntimeError("Cargo.lock: quick-junit not found")
+    cands = glob.glob(os.path.expanduser(f"~/.cargo/registry/src/*/quick-junit-{v.group(1)}/src/report.rs"))
+    if not cands: raise RuntimeError(f"quick-junit {v.group(1)} source not found in the cargo registry")
+    qsrc = strip_comments(open(cands[0]).read())
+    m = re.search(r"pub fn new\(data: impl AsRef<str>\) -> Self \{(.*?)\n    \}", qsrc, re.S)
+    if not m: raise RuntimeError("quick-junit: XmlString::new not found")
+    body = re.sub(r"\s+", " ", m.group(1))
+    mm = re.fullmatch(r" let data = data\.as_ref\(\); let data = strip_ansi_escapes::strip_str\(data\); let data = data \.replace\( \|c\| matches!\(c, (.*?)\), \"\", \) \.into_boxed_str\(\); Self \{ data \}", body)
+    if not mm: raise RuntimeError(f"quick-junit: XmlString::new has an unexpected shape: {body}")
+    ranges = []
+    for alt in mm.group(1).split("|"):
+        a = alt.strip()
+        r1 = re.fullmatch(r"'\\x([0-9a-fA-F]{2})'\.\.='\\x([0-9a-fA-F]{2})'", a)
+        r2 = re.fullmatch(r"'\\x([0-9a-fA-F]{2})'", a)
+        if r1: ranges.append((int(r1.group(1), 16), int(r1.group(2), 16)))
+        elif r2: ranges.append((int(r2.group(1), 16), int(r2.group(1), 16)))
+        else: raise RuntimeError(f"quick-junit: unrecognised pattern {a}")
+    if not re.search(r"impl<T: AsRef<str>> From<T> for XmlString \{\s*fn from\(s: T\) -> Self \{\s*XmlString::new\(s\)", qsrc):
+        raise RuntimeError("quick-junit: From<T> for XmlString is not XmlString::new")
+    return tested, removed, (n_wrapped, len(arms)), sorted(set(direct_recv)), ranges
+
+
 def run(tables=None):
     codes = exit_codes()
     ee = expected_error_codes()
@@ -172,6 +220,7 @@ def run(tables=None):
     preds = parse_set_def_table()
     esc = escape_table()
     shut, timeout_t, jc, (n_group, n_any) = signal_tables()
+    xt, xr, (xw, xa), xdirect, xranges = xml_filter_tables()
     def code_of(outcome):
         return 0 if outcome == "0" else int(codes[ee[outcome]])
     lines = [
@@ -208,6 +257,19 @@ def run(tables=None):
         "",
         "/-- `libc::kill` call sites in unix.rs: (addressed to the process group `-pid`, all) -/",
         f"def killSites : Nat × Nat := ({n_group}, {n_any})",
+        "",
+        "/-- junit.rs `xml_string`: the code points it looks for, and the ones it removes -/",
+        f"def junitNoncharsTested : List Nat := [{', '.join(map(str, xt))}]",
+        f"def junitNoncharsRemoved : List Nat := [{', '.join(map(str, xr))}]",
+        "",
+        "/-- `TestcaseOrRerun`'s setter arms: (those whose text goes through `xml_string`, all) -/",
+        f"def junitSetterArms : Nat × Nat := ({xw}, {xa})",
+        "",
+        "/-- receivers on which a quick-junit text setter is called outside `TestcaseOrRerun` -/",
+        f"def junitDirectSetters : List String := {lean_str_list(xdirect)}",
+        "",
+        "/-- quick-junit `XmlString::new`: the inclusive code point ranges it removes (after `strip_ansi_escapes::strip_str`) -/",
+        "def xmlStringStripped : List (Nat × Nat) := [" + ", ".join(f"({a}, {b})" for a, b in xranges) + "]",
         "",
         "end NextestModel.Gen",
         "",
